@@ -2,18 +2,19 @@ import H2V.Lemmas.ConnResetPEvolve
 /-
   ConnResetP — frame lemmas: the operations of the model that never touch the core fields
   (`key`, `id`, `state`, `pendingSend`) of any slab entry.  Stated for an arbitrary per-stream
-  relation `P` (class `Good`): `Evolves P N s0 s → Evolves P N s0 (op s …)`.
+  relation `P` (class `Good`): `Evolves P N a s.store → Evolves P N a (op s …).store`.
   Covered here: the queues, the counters, `transition_after`, the whole capacity machinery of
   prioritize.rs (`try_assign_capacity`, `assign_connection_capacity`, `reserve_capacity`,
   `reclaim_*`), and the receive-side bookkeeping of recv.rs that does not move the state machine.
 -/
+set_option linter.unusedSectionVars false
 namespace H2V.Lemmas.ConnResetP
 open H2V H2V.Model H2V.Model.Conn
 
 section
-variable {P : Stream → Stream → Prop} {N : Stream → Prop} [Good P N] {s0 s : Streams}
+variable {P : Stream → Stream → Prop} {N : Stream → Prop} [Good P N] {a : Store} {s : Streams}
 
-@[simp] theorem setQ_store (s : Streams) (q : QName) (l : List Nat) : (s.setQ q l).store = s.store := by
+@[simp, crp_store] theorem setQ_store (s : Streams) (q : QName) (l : List Nat) : (s.setQ q l).store = s.store := by
   cases q <;> rfl
 @[simp] theorem setQ_counts (s : Streams) (q : QName) (l : List Nat) : (s.setQ q l).counts = s.counts := by
   cases q <;> rfl
@@ -50,126 +51,357 @@ macro_rules | `(tactic| core_tac) => `(tactic| exact coreEq_notifyPush _)
 macro_rules | `(tactic| core_tac) => `(tactic| exact coreEq_notifyCapacity _)
 macro_rules | `(tactic| core_tac) => `(tactic| exact coreEq_assignCapacity _ _ _)
 
-theorem qPush_ev (h : Evolves P N s0 s) (q : QName) (id : Nat) : Evolves P N s0 (s.qPush q id).1 := by
+theorem qPush_ev (h : Evolves P N a s.store) (q : QName) (id : Nat) : Evolves P N a (s.qPush q id).1.store := by
   unfold Streams.qPush; ev
-macro_rules | `(tactic| ev_step) => `(tactic| apply qPush_ev)
+macro_rules | `(tactic| ev_step) => `(tactic| with_reducible apply qPush_ev)
 
-theorem qPushFront_ev (h : Evolves P N s0 s) (q : QName) (id : Nat) : Evolves P N s0 (s.qPushFront q id).1 := by
+theorem qPushFront_ev (h : Evolves P N a s.store) (q : QName) (id : Nat) : Evolves P N a (s.qPushFront q id).1.store := by
   unfold Streams.qPushFront; ev
-macro_rules | `(tactic| ev_step) => `(tactic| apply qPushFront_ev)
+macro_rules | `(tactic| ev_step) => `(tactic| with_reducible apply qPushFront_ev)
 
-theorem qPop_ev (h : Evolves P N s0 s) (q : QName) : Evolves P N s0 (s.qPop q).1 := by
+theorem qPop_ev (h : Evolves P N a s.store) (q : QName) : Evolves P N a (s.qPop q).1.store := by
   unfold Streams.qPop; ev
-macro_rules | `(tactic| ev_step) => `(tactic| apply qPop_ev)
+macro_rules | `(tactic| ev_step) => `(tactic| with_reducible apply qPop_ev)
 
-theorem incNumSendStreams_ev (h : Evolves P N s0 s) (id : Nat) : Evolves P N s0 (s.incNumSendStreams id) := by
+theorem incNumSendStreams_ev (h : Evolves P N a s.store) (id : Nat) : Evolves P N a (s.incNumSendStreams id).store := by
   unfold Streams.incNumSendStreams; ev
-macro_rules | `(tactic| ev_step) => `(tactic| apply incNumSendStreams_ev)
+macro_rules | `(tactic| ev_step) => `(tactic| with_reducible apply incNumSendStreams_ev)
 
-theorem incNumRecvStreams_ev (h : Evolves P N s0 s) (id : Nat) : Evolves P N s0 (s.incNumRecvStreams id) := by
+theorem incNumRecvStreams_ev (h : Evolves P N a s.store) (id : Nat) : Evolves P N a (s.incNumRecvStreams id).store := by
   unfold Streams.incNumRecvStreams; ev
-macro_rules | `(tactic| ev_step) => `(tactic| apply incNumRecvStreams_ev)
+macro_rules | `(tactic| ev_step) => `(tactic| with_reducible apply incNumRecvStreams_ev)
 
-theorem decNumStreams_ev (h : Evolves P N s0 s) (id : Nat) : Evolves P N s0 (s.decNumStreams id) := by
+theorem decNumStreams_ev (h : Evolves P N a s.store) (id : Nat) : Evolves P N a (s.decNumStreams id).store := by
   unfold Streams.decNumStreams; ev
-macro_rules | `(tactic| ev_step) => `(tactic| apply decNumStreams_ev)
+macro_rules | `(tactic| ev_step) => `(tactic| with_reducible apply decNumStreams_ev)
 
-theorem unlink_ev (h : Evolves P N s0 s) (id : Nat) : Evolves P N s0 { s with store := s.store.unlink id } :=
-  h.of_get?_eq (fun _ => rfl) rfl
-macro_rules | `(tactic| ev_step) => `(tactic| apply unlink_ev)
-
-theorem remove_ev (h : Evolves P N s0 s) (k n : Nat) :
-    Evolves P N s0 { s with store := s.store.remove k, recvBufferLeaked := n } := h.remove k rfl
-macro_rules | `(tactic| ev_step) => `(tactic| apply remove_ev)
-
-theorem transitionAfter_ev (h : Evolves P N s0 s) (id : Nat) (b : Bool) : Evolves P N s0 (s.transitionAfter id b) := by
+theorem transitionAfter_ev (h : Evolves P N a s.store) (id : Nat) (b : Bool) : Evolves P N a (s.transitionAfter id b).store := by
   unfold Streams.transitionAfter; ev
-macro_rules | `(tactic| ev_step) => `(tactic| apply transitionAfter_ev)
+macro_rules | `(tactic| ev_step) => `(tactic| with_reducible apply transitionAfter_ev)
 
-theorem scheduleSend_ev (h : Evolves P N s0 s) (id : Nat) : Evolves P N s0 (s.scheduleSend id) := by
+theorem scheduleSend_ev (h : Evolves P N a s.store) (id : Nat) : Evolves P N a (s.scheduleSend id).store := by
   unfold Streams.scheduleSend; ev
-macro_rules | `(tactic| ev_step) => `(tactic| apply scheduleSend_ev)
+macro_rules | `(tactic| ev_step) => `(tactic| with_reducible apply scheduleSend_ev)
 
-theorem queueOpen_ev (h : Evolves P N s0 s) (id : Nat) : Evolves P N s0 (s.queueOpen id) := by
+theorem queueOpen_ev (h : Evolves P N a s.store) (id : Nat) : Evolves P N a (s.queueOpen id).store := by
   unfold Streams.queueOpen; ev
-macro_rules | `(tactic| ev_step) => `(tactic| apply queueOpen_ev)
+macro_rules | `(tactic| ev_step) => `(tactic| with_reducible apply queueOpen_ev)
 
-theorem tryAssignCapacity_ev (h : Evolves P N s0 s) (id : Nat) : Evolves P N s0 (s.tryAssignCapacity id) := by
+theorem tryAssignCapacity_ev (h : Evolves P N a s.store) (id : Nat) : Evolves P N a (s.tryAssignCapacity id).store := by
   unfold Streams.tryAssignCapacity; ev
-macro_rules | `(tactic| ev_step) => `(tactic| apply tryAssignCapacity_ev)
+macro_rules | `(tactic| ev_step) => `(tactic| with_reducible apply tryAssignCapacity_ev)
 
-theorem assignConnectionCapacityLoop_ev (fuel : Nat) (h : Evolves P N s0 s) :
-    Evolves P N s0 (Streams.assignConnectionCapacityLoop fuel s) := by
+theorem assignConnectionCapacityLoop_ev (fuel : Nat) (h : Evolves P N a s.store) :
+    Evolves P N a (Streams.assignConnectionCapacityLoop fuel s).store := by
   induction fuel generalizing s with
   | zero => unfold Streams.assignConnectionCapacityLoop; exact h
   | succ n ih => unfold Streams.assignConnectionCapacityLoop; ev
-macro_rules | `(tactic| ev_step) => `(tactic| apply assignConnectionCapacityLoop_ev)
+macro_rules | `(tactic| ev_step) => `(tactic| with_reducible apply assignConnectionCapacityLoop_ev)
 
-theorem assignConnectionCapacity_ev (h : Evolves P N s0 s) (inc : Nat) : Evolves P N s0 (s.assignConnectionCapacity inc) := by
+theorem assignConnectionCapacity_ev (h : Evolves P N a s.store) (inc : Nat) : Evolves P N a (s.assignConnectionCapacity inc).store := by
   unfold Streams.assignConnectionCapacity; ev
-macro_rules | `(tactic| ev_step) => `(tactic| apply assignConnectionCapacity_ev)
+macro_rules | `(tactic| ev_step) => `(tactic| with_reducible apply assignConnectionCapacity_ev)
 
-theorem reserveCapacity_ev (h : Evolves P N s0 s) (id c : Nat) : Evolves P N s0 (s.reserveCapacity id c) := by
+theorem reserveCapacity_ev (h : Evolves P N a s.store) (id c : Nat) : Evolves P N a (s.reserveCapacity id c).store := by
   unfold Streams.reserveCapacity; ev
-macro_rules | `(tactic| ev_step) => `(tactic| apply reserveCapacity_ev)
+macro_rules | `(tactic| ev_step) => `(tactic| with_reducible apply reserveCapacity_ev)
 
-theorem reclaimAllCapacity_ev (h : Evolves P N s0 s) (id : Nat) : Evolves P N s0 (s.reclaimAllCapacity id) := by
+theorem reclaimAllCapacity_ev (h : Evolves P N a s.store) (id : Nat) : Evolves P N a (s.reclaimAllCapacity id).store := by
   unfold Streams.reclaimAllCapacity; ev
-macro_rules | `(tactic| ev_step) => `(tactic| apply reclaimAllCapacity_ev)
+macro_rules | `(tactic| ev_step) => `(tactic| with_reducible apply reclaimAllCapacity_ev)
 
-theorem reclaimReservedCapacity_ev (h : Evolves P N s0 s) (id : Nat) : Evolves P N s0 (s.reclaimReservedCapacity id) := by
+theorem reclaimReservedCapacity_ev (h : Evolves P N a s.store) (id : Nat) : Evolves P N a (s.reclaimReservedCapacity id).store := by
   unfold Streams.reclaimReservedCapacity; ev
-macro_rules | `(tactic| ev_step) => `(tactic| apply reclaimReservedCapacity_ev)
+macro_rules | `(tactic| ev_step) => `(tactic| with_reducible apply reclaimReservedCapacity_ev)
 
-theorem clearPendingCapacity_ev (fuel : Nat) (h : Evolves P N s0 s) :
-    Evolves P N s0 (Streams.clearPendingCapacity fuel s) := by
+theorem clearPendingCapacity_ev (fuel : Nat) (h : Evolves P N a s.store) :
+    Evolves P N a (Streams.clearPendingCapacity fuel s).store := by
   induction fuel generalizing s with
   | zero => unfold Streams.clearPendingCapacity; exact h
   | succ n ih => unfold Streams.clearPendingCapacity; ev
-macro_rules | `(tactic| ev_step) => `(tactic| apply clearPendingCapacity_ev)
+macro_rules | `(tactic| ev_step) => `(tactic| with_reducible apply clearPendingCapacity_ev)
 
-theorem clearPendingOpen_ev (fuel : Nat) (h : Evolves P N s0 s) :
-    Evolves P N s0 (Streams.clearPendingOpen fuel s) := by
+theorem clearPendingOpen_ev (fuel : Nat) (h : Evolves P N a s.store) :
+    Evolves P N a (Streams.clearPendingOpen fuel s).store := by
   induction fuel generalizing s with
   | zero => unfold Streams.clearPendingOpen; exact h
   | succ n ih => unfold Streams.clearPendingOpen; ev
-macro_rules | `(tactic| ev_step) => `(tactic| apply clearPendingOpen_ev)
+macro_rules | `(tactic| ev_step) => `(tactic| with_reducible apply clearPendingOpen_ev)
 
-theorem popPendingOpen_ev (h : Evolves P N s0 s) : Evolves P N s0 s.popPendingOpen.1 := by
+theorem popPendingOpen_ev (h : Evolves P N a s.store) : Evolves P N a s.popPendingOpen.1.store := by
   unfold Streams.popPendingOpen; ev
-macro_rules | `(tactic| ev_step) => `(tactic| apply popPendingOpen_ev)
+macro_rules | `(tactic| ev_step) => `(tactic| with_reducible apply popPendingOpen_ev)
 
-theorem prioRecvStreamWindowUpdate_ev (h : Evolves P N s0 s) (id inc : Nat) :
-    Evolves P N s0 (s.prioRecvStreamWindowUpdate id inc).1 := by
+theorem prioRecvStreamWindowUpdate_ev (h : Evolves P N a s.store) (id inc : Nat) :
+    Evolves P N a (s.prioRecvStreamWindowUpdate id inc).1.store := by
   unfold Streams.prioRecvStreamWindowUpdate; ev
-macro_rules | `(tactic| ev_step) => `(tactic| apply prioRecvStreamWindowUpdate_ev)
+macro_rules | `(tactic| ev_step) => `(tactic| with_reducible apply prioRecvStreamWindowUpdate_ev)
 
-theorem recvConnectionWindowUpdate_ev (h : Evolves P N s0 s) (inc : Nat) :
-    Evolves P N s0 (s.recvConnectionWindowUpdate inc).1 := by
+theorem recvConnectionWindowUpdate_ev (h : Evolves P N a s.store) (inc : Nat) :
+    Evolves P N a (s.recvConnectionWindowUpdate inc).1.store := by
   unfold Streams.recvConnectionWindowUpdate; ev
-macro_rules | `(tactic| ev_step) => `(tactic| apply recvConnectionWindowUpdate_ev)
+macro_rules | `(tactic| ev_step) => `(tactic| with_reducible apply recvConnectionWindowUpdate_ev)
 
-theorem sendOpenId_ev (h : Evolves P N s0 s) : Evolves P N s0 s.sendOpenId.1 := by
+theorem sendOpenId_ev (h : Evolves P N a s.store) : Evolves P N a s.sendOpenId.1.store := by
   unfold Streams.sendOpenId; ev
-macro_rules | `(tactic| ev_step) => `(tactic| apply sendOpenId_ev)
+macro_rules | `(tactic| ev_step) => `(tactic| with_reducible apply sendOpenId_ev)
 
-theorem pollCapacity_ev (h : Evolves P N s0 s) (id : Nat) (tag : String) : Evolves P N s0 (s.pollCapacity id tag).1 := by
+theorem pollCapacity_ev (h : Evolves P N a s.store) (id : Nat) (tag : String) : Evolves P N a (s.pollCapacity id tag).1.store := by
   unfold Streams.pollCapacity Stream.waitSend; ev
-macro_rules | `(tactic| ev_step) => `(tactic| apply pollCapacity_ev)
+macro_rules | `(tactic| ev_step) => `(tactic| with_reducible apply pollCapacity_ev)
 
-theorem pollReset_ev (h : Evolves P N s0 s) (id : Nat) (m : PollReset) (tag : String) :
-    Evolves P N s0 (s.pollReset id m tag).1 := by
+theorem pollReset_ev (h : Evolves P N a s.store) (id : Nat) (m : PollReset) (tag : String) :
+    Evolves P N a (s.pollReset id m tag).1.store := by
   unfold Streams.pollReset Stream.waitSend; ev
-macro_rules | `(tactic| ev_step) => `(tactic| apply pollReset_ev)
+macro_rules | `(tactic| ev_step) => `(tactic| with_reducible apply pollReset_ev)
 
-theorem sendRecvGoAway_ev (h : Evolves P N s0 s) (l : Nat) : Evolves P N s0 (s.sendRecvGoAway l).1 := by
+theorem sendRecvGoAway_ev (h : Evolves P N a s.store) (l : Nat) : Evolves P N a (s.sendRecvGoAway l).1.store := by
   unfold Streams.sendRecvGoAway; ev
-macro_rules | `(tactic| ev_step) => `(tactic| apply sendRecvGoAway_ev)
+macro_rules | `(tactic| ev_step) => `(tactic| with_reducible apply sendRecvGoAway_ev)
 
-theorem sendMaybeResetNextStreamId_ev (h : Evolves P N s0 s) (id : Nat) :
-    Evolves P N s0 (s.sendMaybeResetNextStreamId id) := by
+theorem sendMaybeResetNextStreamId_ev (h : Evolves P N a s.store) (id : Nat) :
+    Evolves P N a (s.sendMaybeResetNextStreamId id).store := by
   unfold Streams.sendMaybeResetNextStreamId; ev
-macro_rules | `(tactic| ev_step) => `(tactic| apply sendMaybeResetNextStreamId_ev)
+macro_rules | `(tactic| ev_step) => `(tactic| with_reducible apply sendMaybeResetNextStreamId_ev)
+
+
+-- ===================================================================== Store::for_each / try_for_each
+
+theorem tryForEach_ev (f : Streams → Nat → Streams × Option PErr)
+    (hf : ∀ (s : Streams) (id : Nat), Evolves P N a s.store → Evolves P N a (f s id).1.store)
+    (fuel i len : Nat) (h : Evolves P N a s.store) :
+    Evolves P N a (Streams.tryForEach f fuel i len s).1.store := by
+  induction fuel generalizing s i len with
+  | zero => unfold Streams.tryForEach; exact h
+  | succ n ih => unfold Streams.tryForEach; ev
+
+theorem storeTryForEach_ev (f : Streams → Nat → Streams × Option PErr)
+    (hf : ∀ (s : Streams) (id : Nat), Evolves P N a s.store → Evolves P N a (f s id).1.store)
+    (h : Evolves P N a s.store) : Evolves P N a (s.storeTryForEach f).1.store := by
+  unfold Streams.storeTryForEach; exact tryForEach_ev f hf _ _ _ h
+
+theorem storeForEach_ev (f : Streams → Nat → Streams)
+    (hf : ∀ (s : Streams) (id : Nat), Evolves P N a s.store → Evolves P N a (f s id).store)
+    (h : Evolves P N a s.store) : Evolves P N a (s.storeForEach f).store := by
+  unfold Streams.storeForEach; exact storeTryForEach_ev _ (fun s id h => hf s id h) h
+
+theorem tryForEachAcc_ev (f : Nat → Streams → Nat → Streams × Nat × Option PErr)
+    (hf : ∀ (acc : Nat) (s : Streams) (id : Nat), Evolves P N a s.store → Evolves P N a (f acc s id).1.store)
+    (fuel i len acc : Nat) (h : Evolves P N a s.store) :
+    Evolves P N a (Streams.tryForEachAcc f fuel i len acc s).1.store := by
+  induction fuel generalizing s i len acc with
+  | zero => unfold Streams.tryForEachAcc; exact h
+  | succ n ih => unfold Streams.tryForEachAcc; ev
+
+theorem transition_ev {α : Type} (id : Nat) (f : Streams → Streams × α)
+    (hf : Evolves P N a (f s).1.store) : Evolves P N a (s.transition id f).1.store := by
+  unfold Streams.transition; ev
+
+theorem decStreamWindow_ev (h : Evolves P N a s.store) (dec acc id : Nat) :
+    Evolves P N a (Streams.decStreamWindow dec acc s id).1.store := by
+  unfold Streams.decStreamWindow; ev
+macro_rules | `(tactic| ev_step) => `(tactic| with_reducible apply decStreamWindow_ev)
+
+-- ===================================================================== recv.rs
+
+theorem releaseConnectionCapacity_ev (h : Evolves P N a s.store) (c : Nat) (u : Bool) :
+    Evolves P N a (s.releaseConnectionCapacity c u).store := by
+  unfold Streams.releaseConnectionCapacity; ev
+macro_rules | `(tactic| ev_step) => `(tactic| with_reducible apply releaseConnectionCapacity_ev)
+
+theorem releaseCapacity_ev (h : Evolves P N a s.store) (id c : Nat) (u : Bool) :
+    Evolves P N a (s.releaseCapacity id c u).1.store := by
+  unfold Streams.releaseCapacity; ev
+macro_rules | `(tactic| ev_step) => `(tactic| with_reducible apply releaseCapacity_ev)
+
+theorem clearRecvBuffer_ev (h : Evolves P N a s.store) (id : Nat) (u : Bool) :
+    Evolves P N a (s.clearRecvBuffer id u).store := by
+  unfold Streams.clearRecvBuffer; ev
+macro_rules | `(tactic| ev_step) => `(tactic| with_reducible apply clearRecvBuffer_ev)
+
+theorem releaseClosedCapacity_ev (h : Evolves P N a s.store) (id : Nat) :
+    Evolves P N a (s.releaseClosedCapacity id).store := by
+  unfold Streams.releaseClosedCapacity; ev
+macro_rules | `(tactic| ev_step) => `(tactic| with_reducible apply releaseClosedCapacity_ev)
+
+theorem setTargetConnectionWindow_ev (h : Evolves P N a s.store) (t : Nat) :
+    Evolves P N a (s.setTargetConnectionWindow t).1.store := by
+  unfold Streams.setTargetConnectionWindow; ev
+macro_rules | `(tactic| ev_step) => `(tactic| with_reducible apply setTargetConnectionWindow_ev)
+
+theorem consumeConnectionWindow_ev (h : Evolves P N a s.store) (sz : Nat) :
+    Evolves P N a (s.consumeConnectionWindow sz).1.store := by
+  unfold Streams.consumeConnectionWindow; ev
+macro_rules | `(tactic| ev_step) => `(tactic| with_reducible apply consumeConnectionWindow_ev)
+
+theorem ignoreData_ev (h : Evolves P N a s.store) (sz : Nat) : Evolves P N a (s.ignoreData sz).1.store := by
+  unfold Streams.ignoreData; ev
+macro_rules | `(tactic| ev_step) => `(tactic| with_reducible apply ignoreData_ev)
+
+theorem recvOpen_ev (h : Evolves P N a s.store) (id : Nat) (pp : Bool) : Evolves P N a (s.recvOpen id pp).1.store := by
+  unfold Streams.recvOpen; ev
+macro_rules | `(tactic| ev_step) => `(tactic| with_reducible apply recvOpen_ev)
+
+theorem recvTakeRequest_ev (h : Evolves P N a s.store) (id : Nat) : Evolves P N a (s.recvTakeRequest id).1.store := by
+  unfold Streams.recvTakeRequest; ev
+macro_rules | `(tactic| ev_step) => `(tactic| with_reducible apply recvTakeRequest_ev)
+
+theorem recvNextIncoming_ev (h : Evolves P N a s.store) : Evolves P N a s.recvNextIncoming.1.store := by
+  unfold Streams.recvNextIncoming; ev
+macro_rules | `(tactic| ev_step) => `(tactic| with_reducible apply recvNextIncoming_ev)
+
+theorem enqueueResetExpiration_ev (h : Evolves P N a s.store) (id : Nat) :
+    Evolves P N a (s.enqueueResetExpiration id).store := by
+  unfold Streams.enqueueResetExpiration; ev
+macro_rules | `(tactic| ev_step) => `(tactic| with_reducible apply enqueueResetExpiration_ev)
+
+theorem sendPendingRefusal_ev (h : Evolves P N a s.store) (w : Writer) : Evolves P N a (s.sendPendingRefusal w).1.store := by
+  unfold Streams.sendPendingRefusal; ev
+macro_rules | `(tactic| ev_step) => `(tactic| with_reducible apply sendPendingRefusal_ev)
+
+theorem clearExpiredResetStreams_ev (fuel : Nat) (h : Evolves P N a s.store) :
+    Evolves P N a (Streams.clearExpiredResetStreams fuel s).store := by
+  induction fuel generalizing s with
+  | zero => unfold Streams.clearExpiredResetStreams; exact h
+  | succ n ih => unfold Streams.clearExpiredResetStreams; ev
+macro_rules | `(tactic| ev_step) => `(tactic| with_reducible apply clearExpiredResetStreams_ev)
+
+theorem clearStreamWindowUpdateQueue_ev (fuel : Nat) (h : Evolves P N a s.store) :
+    Evolves P N a (Streams.clearStreamWindowUpdateQueue fuel s).store := by
+  induction fuel generalizing s with
+  | zero => unfold Streams.clearStreamWindowUpdateQueue; exact h
+  | succ n ih => unfold Streams.clearStreamWindowUpdateQueue; ev
+macro_rules | `(tactic| ev_step) => `(tactic| with_reducible apply clearStreamWindowUpdateQueue_ev)
+
+theorem clearAllResetStreams_ev (fuel : Nat) (h : Evolves P N a s.store) :
+    Evolves P N a (Streams.clearAllResetStreams fuel s).store := by
+  induction fuel generalizing s with
+  | zero => unfold Streams.clearAllResetStreams; exact h
+  | succ n ih => unfold Streams.clearAllResetStreams; ev
+macro_rules | `(tactic| ev_step) => `(tactic| with_reducible apply clearAllResetStreams_ev)
+
+theorem clearAllPendingAccept_ev (fuel : Nat) (h : Evolves P N a s.store) :
+    Evolves P N a (Streams.clearAllPendingAccept fuel s).store := by
+  induction fuel generalizing s with
+  | zero => unfold Streams.clearAllPendingAccept; exact h
+  | succ n ih => unfold Streams.clearAllPendingAccept; ev
+macro_rules | `(tactic| ev_step) => `(tactic| with_reducible apply clearAllPendingAccept_ev)
+
+theorem recvClearQueues_ev (h : Evolves P N a s.store) (c : Bool) : Evolves P N a (s.recvClearQueues c).store := by
+  unfold Streams.recvClearQueues; ev
+macro_rules | `(tactic| ev_step) => `(tactic| with_reducible apply recvClearQueues_ev)
+
+theorem sendConnectionWindowUpdate_ev (h : Evolves P N a s.store) (w : Writer) :
+    Evolves P N a (s.sendConnectionWindowUpdate w).1.store := by
+  unfold Streams.sendConnectionWindowUpdate; ev
+macro_rules | `(tactic| ev_step) => `(tactic| with_reducible apply sendConnectionWindowUpdate_ev)
+
+theorem sendStreamWindowUpdates_ev (fuel : Nat) (w : Writer) (h : Evolves P N a s.store) :
+    Evolves P N a (Streams.sendStreamWindowUpdates fuel s w).1.store := by
+  induction fuel generalizing s w with
+  | zero => unfold Streams.sendStreamWindowUpdates; exact h
+  | succ n ih => unfold Streams.sendStreamWindowUpdates; ev
+macro_rules | `(tactic| ev_step) => `(tactic| with_reducible apply sendStreamWindowUpdates_ev)
+
+theorem recvBufferPending_ev (h : Evolves P N a s.store) (w : Writer) : Evolves P N a (s.recvBufferPending w).1.store := by
+  unfold Streams.recvBufferPending; ev
+macro_rules | `(tactic| ev_step) => `(tactic| with_reducible apply recvBufferPending_ev)
+
+theorem scheduleRecv_ev (h : Evolves P N a s.store) (id : Nat) (t : String) : Evolves P N a (s.scheduleRecv id t).1.store := by
+  unfold Streams.scheduleRecv; ev
+macro_rules | `(tactic| ev_step) => `(tactic| with_reducible apply scheduleRecv_ev)
+
+theorem recvPollData_ev (h : Evolves P N a s.store) (id : Nat) (t : String) : Evolves P N a (s.recvPollData id t).1.store := by
+  unfold Streams.recvPollData; ev
+macro_rules | `(tactic| ev_step) => `(tactic| with_reducible apply recvPollData_ev)
+
+theorem recvPollTrailers_ev (h : Evolves P N a s.store) (id : Nat) (t : String) :
+    Evolves P N a (s.recvPollTrailers id t).1.store := by
+  unfold Streams.recvPollTrailers; ev
+macro_rules | `(tactic| ev_step) => `(tactic| with_reducible apply recvPollTrailers_ev)
+
+theorem recvPollResponse_ev (fuel : Nat) (id : Nat) (t : String) (h : Evolves P N a s.store) :
+    Evolves P N a (Streams.recvPollResponse fuel s id t).1.store := by
+  induction fuel generalizing s with
+  | zero => unfold Streams.recvPollResponse; exact h
+  | succ n ih => unfold Streams.recvPollResponse; ev
+macro_rules | `(tactic| ev_step) => `(tactic| with_reducible apply recvPollResponse_ev)
+
+theorem recvPollInformational_ev (h : Evolves P N a s.store) (id : Nat) (t : String) :
+    Evolves P N a (s.recvPollInformational id t).1.store := by
+  unfold Streams.recvPollInformational; ev
+macro_rules | `(tactic| ev_step) => `(tactic| with_reducible apply recvPollInformational_ev)
+
+theorem recvGoAway_ev (h : Evolves P N a s.store) (l : Nat) : Evolves P N a (s.recvGoAway l).store := by
+  unfold Streams.recvGoAway; ev
+macro_rules | `(tactic| ev_step) => `(tactic| with_reducible apply recvGoAway_ev)
+
+theorem recvMaybeResetNextStreamId_ev (h : Evolves P N a s.store) (id : Nat) :
+    Evolves P N a (s.recvMaybeResetNextStreamId id).store := by
+  unfold Streams.recvMaybeResetNextStreamId; ev
+macro_rules | `(tactic| ev_step) => `(tactic| with_reducible apply recvMaybeResetNextStreamId_ev)
+
+theorem applyLocalSettings_ev (h : Evolves P N a s.store) (i e : Option Nat) :
+    Evolves P N a (s.applyLocalSettings i e).1.store := by
+  unfold Streams.applyLocalSettings
+  ev
+  all_goals (apply storeTryForEach_ev _ _ (by ev); intro s id h; ev)
+macro_rules | `(tactic| ev_step) => `(tactic| with_reducible apply applyLocalSettings_ev)
+
+-- ===================================================================== streams.rs (handle bookkeeping)
+
+theorem refInc_ev (h : Evolves P N a s.store) (id : Nat) : Evolves P N a (s.refInc id).store := by
+  unfold Streams.refInc; ev
+macro_rules | `(tactic| ev_step) => `(tactic| with_reducible apply refInc_ev)
+
+theorem cloneStreamRef_ev (h : Evolves P N a s.store) (id : Nat) : Evolves P N a (s.cloneStreamRef id).store := by
+  unfold Streams.cloneStreamRef; ev
+macro_rules | `(tactic| ev_step) => `(tactic| with_reducible apply cloneStreamRef_ev)
+
+theorem cloneHandle_ev (h : Evolves P N a s.store) : Evolves P N a s.cloneHandle.store := by
+  unfold Streams.cloneHandle; ev
+macro_rules | `(tactic| ev_step) => `(tactic| with_reducible apply cloneHandle_ev)
+
+theorem dropHandle_ev (h : Evolves P N a s.store) : Evolves P N a s.dropHandle.store := by
+  unfold Streams.dropHandle; ev
+macro_rules | `(tactic| ev_step) => `(tactic| with_reducible apply dropHandle_ev)
+
+theorem pollPendingOpen_ev (h : Evolves P N a s.store) (p : Option Nat) (t : String) :
+    Evolves P N a (s.pollPendingOpen p t).1.store := by
+  unfold Streams.pollPendingOpen Stream.waitOpen; ev
+macro_rules | `(tactic| ev_step) => `(tactic| with_reducible apply pollPendingOpen_ev)
+
+theorem nextIncoming_ev (h : Evolves P N a s.store) : Evolves P N a s.nextIncoming.1.store := by
+  unfold Streams.nextIncoming; ev
+macro_rules | `(tactic| ev_step) => `(tactic| with_reducible apply nextIncoming_ev)
+
+theorem refReserveCapacity_ev (h : Evolves P N a s.store) (id c : Nat) : Evolves P N a (s.refReserveCapacity id c).store := by
+  unfold Streams.refReserveCapacity; ev
+macro_rules | `(tactic| ev_step) => `(tactic| with_reducible apply refReserveCapacity_ev)
+
+theorem refPollData_ev (h : Evolves P N a s.store) (id : Nat) (t : String) : Evolves P N a (s.refPollData id t).1.store := by
+  unfold Streams.refPollData; ev
+macro_rules | `(tactic| ev_step) => `(tactic| with_reducible apply refPollData_ev)
+
+theorem refReleaseCapacity_ev (h : Evolves P N a s.store) (id c : Nat) : Evolves P N a (s.refReleaseCapacity id c).1.store := by
+  unfold Streams.refReleaseCapacity; ev
+macro_rules | `(tactic| ev_step) => `(tactic| with_reducible apply refReleaseCapacity_ev)
+
+theorem refClearRecvBuffer_ev (h : Evolves P N a s.store) (id : Nat) : Evolves P N a (s.refClearRecvBuffer id).store := by
+  unfold Streams.refClearRecvBuffer; ev
+macro_rules | `(tactic| ev_step) => `(tactic| with_reducible apply refClearRecvBuffer_ev)
+
+theorem pollSendPendingRefusal_ev (fuel : Nat) (w : Writer) (io : Tio) (t : String) (h : Evolves P N a s.store) :
+    Evolves P N a (Streams.pollSendPendingRefusal fuel s w io t).1.store := by
+  induction fuel generalizing s w io with
+  | zero => unfold Streams.pollSendPendingRefusal; exact h
+  | succ n ih => unfold Streams.pollSendPendingRefusal; ev
+macro_rules | `(tactic| ev_step) => `(tactic| with_reducible apply pollSendPendingRefusal_ev)
+
+theorem applyLocalSettingsFrame_ev (h : Evolves P N a s.store) (v : List (Nat × Nat)) :
+    Evolves P N a (s.applyLocalSettingsFrame v).1.store := by
+  unfold Streams.applyLocalSettingsFrame; ev
+macro_rules | `(tactic| ev_step) => `(tactic| with_reducible apply applyLocalSettingsFrame_ev)
 
 end
 end H2V.Lemmas.ConnResetP
